@@ -36,7 +36,7 @@ ValsOf(e) == [x \in {e.cs[i] : i \in 1..Len(e.cs)} |->
                 e.vs[CHOOSE i \in 1..Len(e.cs) : e.cs[i] = x]]
 (* mcs/mvs (empty unless it happened): the library took this per-zone packet for the tail of the array received
    just before it and merged the two (dispatcher.detect_array_fragment): the message it *stores* is an array over
-   the zones of both.  Only the transcription (drift) is told; for the contract the packet is what was received. *)
+   the zones of both (mlife = the lifetime of the array it continues). *)
 MergedValsOf(e) == [x \in {e.mcs[i] : i \in 1..Len(e.mcs)} |->
                       e.mvs[CHOOSE i \in 1..Len(e.mcs) : e.mcs[i] = x]]
 
@@ -91,8 +91,13 @@ TStep ==
   /\ LET e == Ev(l) IN
      /\ now' = e.t
      /\ IF e.k = "rx"
-        THEN LET m == Msg(e.code, e.form, ValsOf(e), e.t, e.life)
-                 ms == IF Len(e.mcs) = 0 THEN m ELSE Msg(e.code, "A", MergedValsOf(e), e.t, e.life) IN
+        THEN LET m0 == Msg(e.code, e.form, ValsOf(e), e.t, e.life)
+                 \* the transcription: what the library stores, with the lifetime it gave it
+                 ms == IF Len(e.mcs) = 0 THEN m0 ELSE Msg(e.code, "A", MergedValsOf(e), e.t, e.life)
+                 \* the contract: a merged packet is, as the library itself says, an array received now - the newest
+                 \* message of every zone it carries - and an array's lifetime is the one of the array it continues
+                 \* (e.mlife), whatever lifetime the library gave it
+                 m  == IF Len(e.mcs) = 0 THEN m0 ELSE Msg(e.code, "A", MergedValsOf(e), e.t, e.mlife) IN
              /\ slot' = StoreEffect(slot, ms)
              /\ last' = StoreEffect(last, m)
              /\ allm' = Append(allm, m)
